@@ -261,6 +261,11 @@ def r3_representable(program, folder, rep, widths, init_fl, n_bits):
         for sg in (True, False):
             env = fold_body(folder, init, {signed: sg, nb: b, nf: 0})
             mx, mn = env.get("self.max_value"), env.get("self.min_value")
+            if not isinstance(mx, int) or not isinstance(mn, int):
+                raise AnalysisError("NumpyFloatToFixConverter.__init__: the "
+                                    "clip bounds do not fold to integers "
+                                    "(taken from a library call such as "
+                                    "np.iinfo?); that form is not analysed")
             wmx = (1 << (b - 1)) - 1 if sg else (1 << b) - 1
             wmn = -(1 << (b - 1)) if sg else 0
             what = "%s %d-bit" % ("signed" if sg else "unsigned", b)
